@@ -35,6 +35,15 @@
 //!   activation born at generation g iff birth <= g < death); static procedures give
 //!   permission_error(modify, static_procedure, PI) / permission_error(access, private_procedure, PI).
 //! * unknown procedure: existence_error(procedure, N/A).
+//! * all-solutions predicates (added for C25, section "all-solutions predicates" near the end):
+//!   findall/4, bagof/3, setof/3 with ^/2 (ISO 8.10.2, 8.10.3; solution groups are enumerated in
+//!   standard order of the witness, like every implementation that keysorts), countall/2,
+//!   call_nth/2 (library(iso_ext)); `Interp::bag_groups_max`, `Interp::findall_abandoned_nonempty`.
+//! * token log + setup_call_cleanup/3, call_cleanup/2 (added for C12, see the section "token log and
+//!   setup_call_cleanup" at the end of this file): `vp_tok(K)` / `vp_tok(K, V)` append an entry to
+//!   `Interp::log` (never undone by backtracking or exceptions); every activation of
+//!   setup_call_cleanup/3 is recorded in `Interp::scc` with the window of log positions in which
+//!   its cleanup may legitimately run.
 #![allow(dead_code)]
 use crate::num::*;
 use crate::term::{atom, cmp, int, nil, T};
@@ -302,6 +311,18 @@ enum Frame {
     CutTo(usize),
     /// soft-cut: the condition succeeded (again), disable the else mark at this index
     SoftOk(usize),
+    /// the goal of the setup_call_cleanup/3 activation `.0` (mark at choice-stack index `.1`) exited
+    SccExit(usize, usize),
+    /// the cleanup of activation `.0` has been run
+    SccDone(usize),
+    /// fail now (after a cleanup that was triggered by failure)
+    FailNow,
+    /// the goal of the call_nth/2 whose mark sits at this choice-stack index succeeded; `.1` = N
+    NthOk(usize, T),
+    /// continue unwinding with this ball (after a cleanup that was triggered by an exception);
+    /// `.1` = choice points this ball has unwound so far, `.2` = the catch/3 activations that were
+    /// active where the ball was thrown
+    Rethrow(T, usize, Rc<Vec<u64>>),
 }
 
 struct Node {
@@ -337,6 +358,10 @@ enum Kind {
     Not,
     /// else branch of a soft-cut whose condition has already succeeded
     Dead,
+    /// mark of a setup_call_cleanup/3 activation whose goal is not finished yet
+    Cleanup { act: usize, goal: T },
+    /// mark of a call_nth/2 activation: solutions counted so far
+    Nth { count: u64 },
     /// clause/2 or retract/1 iteration
     DbIter { head: T, body: T, snap: Rc<Vec<Rc<DbClause>>>, idx: usize, gen: u64, retract: bool },
 }
@@ -370,6 +395,31 @@ pub struct Interp {
     /// false (default, ISO 8.9.3.4 "antbee" example): a retract/1 activation still yields a clause
     /// of its snapshot that somebody else removed meanwhile; true: it skips such a clause
     pub retract_skips_erased: bool,
+    /// token log of the last solve (vp_tok/1,2), in execution order
+    pub log: Vec<LogEntry>,
+    /// setup_call_cleanup/3 activations of the last solve, in order of activation
+    pub scc: Vec<SccAct>,
+    /// activations that exited deterministically in the model: (activation, choice-stack height of the mark)
+    scc_pending: Vec<(usize, usize)>,
+    /// statistics of the last solve: balls taken by a catcher, active catchers that did not unify
+    /// with a ball, largest number of choice points unwound by one ball
+    pub caught: u64,
+    pub passed_catchers: u64,
+    pub max_unwound: usize,
+    unwound_carry: usize,
+    rethrow_active: Option<Rc<Vec<u64>>>,
+    /// a cut removed the mark of an inner setup_call_cleanup/3 activation while the next choice point
+    /// below was the mark of an outer activation (the shape of a known finding of C12)
+    pub cut_directly_above_mark: bool,
+    /// a cut removed several setup_call_cleanup/3 marks at once and the cleanup of one that is not the
+    /// outermost of them failed (the shape of a known finding of C12)
+    pub failed_cleanup_before_outer: bool,
+    /// calls of user predicates (clause resolution attempts started) in the last solve
+    pub user_calls: u64,
+    /// largest number of solution groups one bagof/3 or setof/3 call had in the last solve
+    pub bag_groups_max: usize,
+    /// an exception abandoned a findall/3 (or bagof, setof, countall) that had already collected solutions
+    pub findall_abandoned_nonempty: bool,
 }
 
 pub fn solve(p: &Program, query: &T, template: &T, lim: &Limits) -> RefOutcome {
@@ -378,7 +428,7 @@ pub fn solve(p: &Program, query: &T, template: &T, lim: &Limits) -> RefOutcome {
 
 impl Interp {
     pub fn new(p: &Program) -> Interp {
-        let mut it = Interp { db: HashMap::new(), gen: 0, bind: HashMap::new(), trail: vec![], next_var: 0, choices: vec![], cont: None, steps: 0, lim: Limits::default(), next_id: 0, last_steps: 0, retract_skips_erased: false };
+        let mut it = Interp { db: HashMap::new(), gen: 0, bind: HashMap::new(), trail: vec![], next_var: 0, choices: vec![], cont: None, steps: 0, lim: Limits::default(), next_id: 0, last_steps: 0, retract_skips_erased: false, log: vec![], scc: vec![], scc_pending: vec![], caught: 0, passed_catchers: 0, max_unwound: 0, unwound_carry: 0, rethrow_active: None, cut_directly_above_mark: false, failed_cleanup_before_outer: false, user_calls: 0, bag_groups_max: 0, findall_abandoned_nonempty: false };
         it.consult(p);
         it
     }
@@ -537,6 +587,19 @@ impl Interp {
         self.trail.clear();
         self.choices.clear();
         self.steps = 0;
+        self.log.clear();
+        self.scc.clear();
+        self.scc_pending.clear();
+        self.caught = 0;
+        self.passed_catchers = 0;
+        self.max_unwound = 0;
+        self.unwound_carry = 0;
+        self.rethrow_active = None;
+        self.cut_directly_above_mark = false;
+        self.failed_cleanup_before_outer = false;
+        self.user_calls = 0;
+        self.bag_groups_max = 0;
+        self.findall_abandoned_nonempty = false;
         let q = intern(query);
         let tpl = intern(template);
         self.next_var = max_var(&q).max(max_var(&tpl));
@@ -577,27 +640,62 @@ impl Interp {
 
     /// `ball` is already a resolved copy. Ok(None): a catcher took it, execution continues.
     fn handle_throw(&mut self, ball: T) -> R<Option<T>> {
-        let mut active: Vec<u64> = vec![];
-        let mut c = self.cont.clone();
-        while let Some(n) = c {
-            match &n.f {
-                Frame::PopCatch(id) => active.push(*id),
-                // the goal of a findall/3 or \+/1 runs on its own continuation; the construct
-                // itself continues with the continuation saved in its mark
-                Frame::Collect(idx) | Frame::NotOk(idx) => {
-                    c = self.choices[*idx].cont.clone();
-                    continue;
+        // the catch/3 activations whose goal is being executed where the ball is thrown (a ball that
+        // continues after a cleanup keeps the set it started with)
+        let active: Rc<Vec<u64>> = match self.rethrow_active.take() {
+            Some(a) => a,
+            None => {
+                let mut active: Vec<u64> = vec![];
+                let mut c = self.cont.clone();
+                while let Some(n) = c {
+                    match &n.f {
+                        Frame::PopCatch(id) => active.push(*id),
+                        // the goal of a findall/3 or \+/1 runs on its own continuation; the construct
+                        // itself continues with the continuation saved in its mark
+                        Frame::Collect(idx) | Frame::NotOk(idx) => {
+                            c = self.choices[*idx].cont.clone();
+                            continue;
+                        }
+                        _ => {}
+                    }
+                    c = n.next.clone();
                 }
-                _ => {}
+                Rc::new(active)
             }
-            c = n.next.clone();
-        }
+        };
+        let mut popped = std::mem::take(&mut self.unwound_carry);
         while let Some(ch) = self.choices.pop() {
             self.undo_to(ch.trail_len);
+            self.scc_settle();
+            popped += 1;
+            self.max_unwound = self.max_unwound.max(popped);
+            if matches!(&ch.kind, Kind::Findall { results, .. } if !results.is_empty()) {
+                self.findall_abandoned_nonempty = true;
+            }
+            if let Kind::Cleanup { act, goal } = &ch.kind {
+                // the goal is abandoned by the exception: run the cleanup (its own exceptions and
+                // failure are ignored), then go on unwinding
+                let s = self.strict_count();
+                let a = &mut self.scc[*act];
+                if !a.nondet_exit {
+                    a.lower = s;
+                }
+                a.upper = Some(s);
+                a.how = "exception";
+                let h = self.choices.len();
+                let guarded = cmp("catch", vec![Self::ignore_goal(goal), self.fresh(), atom("true")]);
+                let n3 = push(Frame::Rethrow(ball, popped, active.clone()), &ch.cont);
+                let n2 = push(Frame::SccDone(*act), &n3);
+                self.cont = push(Frame::Goal(guarded, h), &n2);
+                return Ok(None);
+            }
             if let Kind::Catch { id, catcher, recovery } = &ch.kind {
                 if active.contains(id) {
                     let b = self.copy(&ball);
-                    if self.unify_or_undo(catcher, &b)? {
+                    if !self.unify_or_undo(catcher, &b)? {
+                        self.passed_catchers += 1;
+                    } else {
+                        self.caught += 1;
                         let h = self.choices.len();
                         self.cont = push(Frame::Goal(cmp("call", vec![recovery.clone()]), h), &ch.cont);
                         return Ok(None);
@@ -612,6 +710,7 @@ impl Interp {
     fn backtrack(&mut self) -> R<Status> {
         let Some(ch) = self.choices.pop() else { return Ok(Status::Exhausted) };
         self.undo_to(ch.trail_len);
+        self.scc_settle();
         self.steps += 1;
         if self.steps > self.lim.max_steps {
             return Err(Stop::Limit);
@@ -622,7 +721,22 @@ impl Interp {
                 self.cont = push(Frame::Goal(goal, cutb), &ch.cont);
                 Ok(Status::Continue)
             }
-            Kind::Catch { .. } | Kind::Dead => Ok(Status::Fail),
+            Kind::Catch { .. } | Kind::Dead | Kind::Nth { .. } => Ok(Status::Fail),
+            Kind::Cleanup { act, goal } => {
+                // the goal failed / has no more solutions
+                let s = self.strict_count();
+                let a = &mut self.scc[act];
+                if !a.nondet_exit {
+                    a.lower = s;
+                }
+                a.upper = Some(s);
+                a.how = "fail";
+                let h = self.choices.len();
+                let n3 = push(Frame::FailNow, &ch.cont);
+                let n2 = push(Frame::SccDone(act), &n3);
+                self.cont = push(Frame::Goal(Self::ignore_goal(&goal), h), &n2);
+                Ok(Status::Continue)
+            }
             Kind::Not => {
                 self.cont = ch.cont.clone();
                 Ok(Status::Continue)
@@ -698,16 +812,55 @@ impl Interp {
             }
             Frame::NotOk(idx) => {
                 assert!(matches!(self.choices[idx].kind, Kind::Not), "refint: negation mark missing");
-                let mark = self.choices[idx].trail_len;
-                self.choices.truncate(idx);
-                self.undo_to(mark);
-                Ok(Status::Fail)
+                // cut back to the mark (cleanups of cut setup_call_cleanup/3 goals run now), then fail
+                let after = self.choices[idx].cont.clone();
+                self.cont = self.cut_to(idx, push(Frame::FailNow, &after));
+                Ok(Status::Continue)
             }
             Frame::CutTo(h) => {
-                self.choices.truncate(h);
+                self.cont = self.cut_to(h, next);
+                Ok(Status::Continue)
+            }
+            Frame::FailNow => Ok(Status::Fail),
+            Frame::NthOk(idx, n) => {
+                let count = match &mut self.choices[idx].kind {
+                    Kind::Nth { count } => {
+                        *count += 1;
+                        *count
+                    }
+                    _ => panic!("refint: call_nth mark missing"),
+                };
+                match self.deref(&n) {
+                    T::Int(want) => {
+                        if want == IBig::from(count) {
+                            // the N-th solution: commit to it
+                            self.cont = self.cut_to(idx, next);
+                            Ok(Status::Continue)
+                        } else {
+                            Ok(Status::Fail)
+                        }
+                    }
+                    other => {
+                        if self.unify_or_undo(&other, &T::Int(IBig::from(count)))? {
+                            self.cont = next;
+                            Ok(Status::Continue)
+                        } else {
+                            Ok(Status::Fail)
+                        }
+                    }
+                }
+            }
+            Frame::Rethrow(ball, n, active) => {
+                self.cont = next;
+                self.unwound_carry = n;
+                self.rethrow_active = Some(active);
+                Err(Stop::Throw(ball))
+            }
+            Frame::SccDone(_) => {
                 self.cont = next;
                 Ok(Status::Continue)
             }
+            Frame::SccExit(act, idx) => self.scc_exit(act, idx, next),
             Frame::SoftOk(idx) => {
                 self.choices[idx].kind = Kind::Dead;
                 self.cont = next;
@@ -724,6 +877,8 @@ fn is_control(name: &str, arity: usize) -> bool {
     matches!(
         (name, arity),
         (",", 2) | (";", 2) | ("->", 2) | ("*->", 2) | ("!", 0) | ("\\+", 1) | ("catch", 3) | ("throw", 1) | ("findall", 3) | ("true", 0) | ("fail", 0) | ("false", 0) | ("once", 1) | ("ignore", 1) | ("forall", 2)
+            | ("vp_tok", 1) | ("vp_tok", 2) | ("setup_call_cleanup", 3) | ("call_cleanup", 2) | ("$scc_go", 2) | ("$scc_note_failed", 0)
+            | ("findall", 4) | ("$app", 3) | ("bagof", 3) | ("setof", 3) | ("$bag", 4) | ("^", 2) | ("countall", 2) | ("$len", 2) | ("call_nth", 2)
     ) || (name == "call" && (1..=8).contains(&arity))
 }
 
@@ -769,8 +924,7 @@ impl Interp {
             }
             ("fail", 0) | ("false", 0) => Ok(Status::Fail),
             ("!", 0) => {
-                self.choices.truncate(cutb);
-                self.cont = next;
+                self.cont = self.cut_to(cutb, next);
                 Ok(Status::Continue)
             }
             (",", 2) => {
@@ -885,6 +1039,68 @@ impl Interp {
                 let b = self.copy(&b);
                 Err(Stop::Throw(b))
             }
+            ("findall", 4) => {
+                self.check_list_arg(&args[2])?;
+                self.check_list_arg(&args[3])?;
+                let s = self.fresh();
+                let n2 = push(Frame::Goal(T::Cmp("$app".into(), vec![s.clone(), args[3].clone(), args[2].clone()]), cutb), &next);
+                self.cont = push(Frame::Goal(T::Cmp("findall".into(), vec![args[0].clone(), args[1].clone(), s]), cutb), &n2);
+                Ok(Status::Continue)
+            }
+            ("$app", 3) => {
+                // args[0] is a proper list made by findall/3
+                let Ok(items) = self.list_items(&args[0])? else { panic!("refint: $app on a non-list") };
+                let l = mk_list(items, args[1].clone());
+                if self.unify_or_undo(&args[2], &l)? {
+                    self.cont = next;
+                    Ok(Status::Continue)
+                } else {
+                    Ok(Status::Fail)
+                }
+            }
+            ("bagof", 3) | ("setof", 3) => self.bagof_start(&args[0], &args[1], &args[2], name == "setof", cutb, next),
+            ("$bag", 4) => self.bag_groups(&args[0], &args[1], &args[2], &args[3], cutb, next),
+            ("^", 2) => self.call_goal(&args[1], next),
+            ("countall", 2) => {
+                self.check_count_arg(&args[1])?;
+                let s = self.fresh();
+                let n2 = push(Frame::Goal(T::Cmp("$len".into(), vec![s.clone(), args[1].clone()]), cutb), &next);
+                self.cont = push(Frame::Goal(T::Cmp("findall".into(), vec![atom("x"), args[0].clone(), s]), cutb), &n2);
+                Ok(Status::Continue)
+            }
+            ("$len", 2) => {
+                let Ok(items) = self.list_items(&args[0])? else { panic!("refint: $len on a non-list") };
+                if self.unify_or_undo(&args[1], &int(items.len() as i64))? {
+                    self.cont = next;
+                    Ok(Status::Continue)
+                } else {
+                    Ok(Status::Fail)
+                }
+            }
+            ("call_nth", 2) => {
+                self.check_count_arg(&args[1])?;
+                if matches!(self.deref(&args[1]), T::Int(i) if i == IBig::ZERO) {
+                    return Ok(Status::Fail);
+                }
+                let h = self.choices.len();
+                self.choices.push(Choice { trail_len: self.trail.len(), cont: next.clone(), kind: Kind::Nth { count: 0 } });
+                let n2 = push(Frame::NthOk(h, args[1].clone()), &next);
+                self.cont = push(Frame::Goal(cmp("call", vec![args[0].clone()]), h + 1), &n2);
+                Ok(Status::Continue)
+            }
+            ("vp_tok", 1) | ("vp_tok", 2) => {
+                self.tok(&args);
+                self.cont = next;
+                Ok(Status::Continue)
+            }
+            ("setup_call_cleanup", 3) => self.scc_start(&args[0], &args[1], &args[2], cutb, next),
+            ("call_cleanup", 2) => self.scc_start(&atom("true"), &args[0], &args[1], cutb, next),
+            ("$scc_go", 2) => self.scc_go(&args[0], &args[1], next),
+            ("$scc_note_failed", 0) => {
+                self.failed_cleanup_before_outer = true;
+                self.cont = next;
+                Ok(Status::Continue)
+            }
             ("clause", 2) => self.start_db_iter(&args[0], &args[1], false, next),
             ("retract", 1) => {
                 let c = self.deref(&args[0]);
@@ -911,6 +1127,7 @@ impl Interp {
                         Some(p) => {
                             let snap = p.clauses.clone();
                             let gen = self.gen;
+                            self.user_calls += 1;
                             self.try_clauses(T::Cmp(name, args).atomize(), snap, 0, gen, next)
                         }
                     }
@@ -1590,6 +1807,306 @@ impl Interp {
 }
 
 // ---------------------------------------------------------------------------------------------
+// all-solutions predicates (C25)
+//
+// bagof(T, G, L) (ISO 8.10.2): Witness = the variables of the iterated goal of G (G without its
+// V^ prefixes) that occur neither in T nor in a V of a V^ prefix; findall(Witness-T, G', S); S = []
+// fails; the solutions are grouped by witness (two solutions belong to the same group when their
+// witnesses are variants; the witnesses of a group are unified with each other and with Witness);
+// the groups are enumerated on backtracking in standard order of the witness (what keysort-based
+// implementations do; ISO leaves the order open, callers that compare must accept any order);
+// within a group the solutions keep the order of S. setof/3 (8.10.3) sorts each group in standard
+// order and removes duplicates. Any comparison of two distinct unbound variables is Unsupported.
+// findall/4 = findall/3 result ++ Tail. countall(G, N): N = number of solutions. call_nth(G, N):
+// N unbound numbers the solutions 1, 2, ..; N a positive integer gives only the N-th solution
+// (committing to it); N = 0 fails. Type checks like library(iso_ext) / library(error) can_be/2.
+
+impl Interp {
+    /// can_be(list, X): a list or a partial list, else type_error(list, X)
+    fn check_list_arg(&self, t: &T) -> R<()> {
+        let r = self.resolve(t);
+        let mut x = &r;
+        loop {
+            match x {
+                T::Cmp(n, a) if n == "." && a.len() == 2 => x = &a[1],
+                T::Var(_) => return Ok(()),
+                y if y.is_nil() => return Ok(()),
+                _ => return Err(type_err("list", r.clone())),
+            }
+        }
+    }
+
+    /// can_be(integer, N), then N >= 0
+    fn check_count_arg(&self, t: &T) -> R<()> {
+        match self.deref(t) {
+            T::Var(_) => Ok(()),
+            T::Int(i) => {
+                if i < IBig::ZERO {
+                    Err(dom_err("not_less_than_zero", T::Int(i)))
+                } else {
+                    Ok(())
+                }
+            }
+            other => Err(type_err("integer", self.resolve(&other))),
+        }
+    }
+
+    fn bagof_start(&mut self, template: &T, goal: &T, result: &T, is_setof: bool, cutb: usize, next: Cont) -> R<Status> {
+        self.check_list_arg(result)?;
+        let t = self.resolve(template);
+        let mut g = self.resolve(goal);
+        let mut bound = vec![];
+        t.vars(&mut bound);
+        loop {
+            match g {
+                T::Cmp(n, mut a) if n == "^" && a.len() == 2 => {
+                    a[0].vars(&mut bound);
+                    g = a.pop().unwrap();
+                }
+                other => {
+                    g = other;
+                    break;
+                }
+            }
+        }
+        let mut gv = vec![];
+        g.vars(&mut gv);
+        let witness = mk_list(gv.into_iter().filter(|v| !bound.contains(v)).map(T::Var).collect(), nil());
+        let s = self.fresh();
+        let bag = T::Cmp("$bag".into(), vec![s.clone(), witness.clone(), result.clone(), atom(if is_setof { "setof" } else { "bagof" })]);
+        let n2 = push(Frame::Goal(bag, cutb), &next);
+        self.cont = push(Frame::Goal(T::Cmp("findall".into(), vec![cmp("-", vec![witness, t]), g, s]), cutb), &n2);
+        Ok(Status::Continue)
+    }
+
+    fn sort_by<X: Clone>(items: &mut Vec<X>, key: impl Fn(&X) -> &T, dedup: bool) -> R<()> {
+        // stable insertion sort (the comparison may be undecidable in the model)
+        let mut out: Vec<X> = vec![];
+        'next: for it in items.drain(..) {
+            let mut pos = out.len();
+            while pos > 0 {
+                let o = if Self::identical(key(&out[pos - 1]), key(&it)) { Ordering::Equal } else { Self::std_order(key(&out[pos - 1]), key(&it))? };
+                match o {
+                    Ordering::Greater => pos -= 1,
+                    Ordering::Equal if dedup => continue 'next,
+                    _ => break,
+                }
+            }
+            out.insert(pos, it);
+        }
+        *items = out;
+        Ok(())
+    }
+
+    fn bag_groups(&mut self, sols: &T, witness: &T, result: &T, kind: &T, cutb: usize, next: Cont) -> R<Status> {
+        let Ok(items) = self.list_items(sols)? else { panic!("refint: $bag on a non-list") };
+        if items.is_empty() {
+            return Ok(Status::Fail);
+        }
+        let is_setof = matches!(kind, T::Atom(a) if a == "setof");
+        let mut pairs: Vec<(T, T)> = vec![];
+        for it in items {
+            match self.resolve(&it) {
+                T::Cmp(n, mut a) if n == "-" && a.len() == 2 => {
+                    let t = a.pop().unwrap();
+                    pairs.push((a.pop().unwrap(), t));
+                }
+                _ => panic!("refint: $bag element"),
+            }
+        }
+        // groups of variant witnesses, in order of first occurrence
+        let mut groups: Vec<(T, Vec<(T, T)>)> = vec![];
+        for (w, t) in pairs {
+            match groups.iter_mut().find(|(gw, _)| gw.variant(&w)) {
+                Some((_, v)) => v.push((w, t)),
+                None => groups.push((w.clone(), vec![(w, t)])),
+            }
+        }
+        self.bag_groups_max = self.bag_groups_max.max(groups.len());
+        if groups.len() > 1 {
+            Self::sort_by(&mut groups, |g| &g.0, false)?;
+        }
+        // one alternative per group: unify the witnesses, then the result list
+        let mut alts: Vec<T> = vec![];
+        for (_, mut members) in groups {
+            let mut goals: Vec<T> = members.iter().map(|(w, _)| cmp("=", vec![w.clone(), witness.clone()])).collect();
+            if is_setof {
+                // (the witnesses of a group are variants of each other: unifying them cannot change the
+                // order of ground templates; templates with variables make the order Unsupported)
+                Self::sort_by(&mut members, |m| &m.1, true)?;
+            }
+            goals.push(cmp("=", vec![result.clone(), mk_list(members.into_iter().map(|(_, t)| t).collect(), nil())]));
+            let mut g = goals.pop().unwrap();
+            while let Some(x) = goals.pop() {
+                g = cmp(",", vec![x, g]);
+            }
+            alts.push(g);
+        }
+        let mut g = alts.pop().unwrap();
+        while let Some(x) = alts.pop() {
+            g = cmp(";", vec![x, g]);
+        }
+        self.cont = push(Frame::Goal(g, cutb), &next);
+        Ok(Status::Continue)
+    }
+}
+
+// ---------------------------------------------------------------------------------------------
+// token log and setup_call_cleanup/3 (C12)
+//
+// setup_call_cleanup(S, G, C): once(S); C unbound -> instantiation_error; then G is run as call(G)
+// above a mark on the choice stack. The cleanup ignore(C) runs
+//   * when G exits and no choice point is left above the mark (deterministic exit),
+//   * when execution backtracks into the mark (G failed / has no more solutions),
+//   * when an exception unwinds through the mark (exceptions of C itself are then ignored),
+//   * when a cut (!, ->, \+, once/1) removes the mark, innermost activation first.
+// When an implementation *detects* determinism is its own business (it may keep choice points the
+// model does not have), so every activation also records the window [lower, upper] of log
+// positions (counted in tokens that are not cleanup tokens) in which its cleanup may run:
+//   lower = position at the last exit of G (at the failure / exception that finished it when G never exited);
+//   upper = the same position for failure and exception; the position of the cut for a cut; for a
+//           deterministic exit the position at which the choice stack first becomes lower than the
+//           mark (every choice point an implementation may have kept is gone by then), None = end.
+
+#[derive(Clone, Debug, PartialEq)]
+pub struct LogEntry {
+    pub k: T,
+    pub v: Option<T>,
+    /// Some(activation) when the token was logged while the cleanup of that activation was running
+    pub cleanup_of: Option<usize>,
+}
+
+#[derive(Clone, Debug, PartialEq)]
+pub struct SccAct {
+    pub lower: usize,
+    pub upper: Option<usize>,
+    /// "running" | "det-exit" | "fail" | "exception" | "cut"
+    pub how: &'static str,
+    /// the goal exited at least once with choice points left
+    pub nondet_exit: bool,
+}
+
+impl Interp {
+    fn ignore_goal(g: &T) -> T {
+        cmp(";", vec![cmp("->", vec![cmp("call", vec![g.clone()]), atom("true")]), atom("true")])
+    }
+
+    /// number of logged tokens that do not belong to a cleanup
+    pub fn strict_count(&self) -> usize {
+        self.log.iter().filter(|e| e.cleanup_of.is_none()).count()
+    }
+
+    /// innermost cleanup that is running at the current continuation
+    fn running_cleanup(&self) -> Option<usize> {
+        let mut c = self.cont.clone();
+        while let Some(n) = c {
+            match &n.f {
+                Frame::SccDone(a) => return Some(*a),
+                Frame::Collect(idx) | Frame::NotOk(idx) => {
+                    c = self.choices[*idx].cont.clone();
+                    continue;
+                }
+                _ => {}
+            }
+            c = n.next.clone();
+        }
+        None
+    }
+
+    fn tok(&mut self, args: &[T]) {
+        let k = self.resolve(&args[0]).norm();
+        let v = args.get(1).map(|v| self.resolve(v).norm().canon_vars());
+        let cleanup_of = self.running_cleanup();
+        self.log.push(LogEntry { k, v, cleanup_of });
+    }
+
+    fn scc_settle(&mut self) {
+        if self.scc_pending.is_empty() {
+            return;
+        }
+        let len = self.choices.len();
+        let s = self.strict_count();
+        let mut keep = vec![];
+        for (a, h) in std::mem::take(&mut self.scc_pending) {
+            if len < h {
+                self.scc[a].upper = Some(s);
+            } else {
+                keep.push((a, h));
+            }
+        }
+        self.scc_pending = keep;
+    }
+
+    /// remove the choice points above height `h`; the cleanups of the marks among them run first
+    /// (innermost first), then `next`
+    fn cut_to(&mut self, h: usize, next: Cont) -> Cont {
+        let mut marks = vec![];
+        while self.choices.len() > h {
+            let ch = self.choices.pop().unwrap();
+            if let Kind::Cleanup { act, goal } = ch.kind {
+                marks.push((act, goal));
+            }
+        }
+        if !marks.is_empty() && h > 0 && matches!(self.choices[h - 1].kind, Kind::Cleanup { .. }) {
+            self.cut_directly_above_mark = true;
+        }
+        self.scc_settle();
+        let s = self.strict_count();
+        let mut cont = next;
+        let n = marks.len();
+        for (i, (act, goal)) in marks.into_iter().rev().enumerate() {
+            self.scc[act].upper = Some(s);
+            self.scc[act].how = "cut";
+            let n2 = push(Frame::SccDone(act), &cont);
+            // i == 0 is the outermost activation (it runs last)
+            let g = if i > 0 && n >= 2 { cmp(";", vec![cmp("->", vec![cmp("call", vec![goal.clone()]), atom("true")]), atom("$scc_note_failed")]) } else { Self::ignore_goal(&goal) };
+            cont = push(Frame::Goal(g, h), &n2);
+        }
+        cont
+    }
+
+    fn scc_start(&mut self, setup: &T, goal: &T, cleanup: &T, cutb: usize, next: Cont) -> R<Status> {
+        let go = T::Cmp("$scc_go".into(), vec![goal.clone(), cleanup.clone()]);
+        let n2 = push(Frame::Goal(go, cutb), &next);
+        let once = cmp("->", vec![cmp("call", vec![setup.clone()]), atom("true")]);
+        self.cont = push(Frame::Goal(once, cutb), &n2);
+        Ok(Status::Continue)
+    }
+
+    fn scc_go(&mut self, goal: &T, cleanup: &T, next: Cont) -> R<Status> {
+        let c = self.deref(cleanup);
+        if let T::Var(_) = c {
+            return Err(inst_err());
+        }
+        let act = self.scc.len();
+        let s = self.strict_count();
+        self.scc.push(SccAct { lower: s, upper: None, how: "running", nondet_exit: false });
+        let h = self.choices.len();
+        self.choices.push(Choice { trail_len: self.trail.len(), cont: next.clone(), kind: Kind::Cleanup { act, goal: c } });
+        let n2 = push(Frame::SccExit(act, h), &next);
+        self.cont = push(Frame::Goal(cmp("call", vec![goal.clone()]), h + 1), &n2);
+        Ok(Status::Continue)
+    }
+
+    fn scc_exit(&mut self, act: usize, idx: usize, next: Cont) -> R<Status> {
+        assert!(matches!(self.choices.get(idx).map(|c| &c.kind), Some(Kind::Cleanup { act: a, .. }) if *a == act), "refint: cleanup mark missing");
+        let s = self.strict_count();
+        self.scc[act].lower = s;
+        if self.choices.len() == idx + 1 {
+            let Some(Choice { kind: Kind::Cleanup { goal, .. }, .. }) = self.choices.pop() else { unreachable!() };
+            self.scc[act].how = "det-exit";
+            self.scc_pending.push((act, idx));
+            let n2 = push(Frame::SccDone(act), &next);
+            self.cont = push(Frame::Goal(Self::ignore_goal(&goal), idx), &n2);
+        } else {
+            self.scc[act].nondet_exit = true;
+            self.cont = next;
+        }
+        Ok(Status::Continue)
+    }
+}
+
+// ---------------------------------------------------------------------------------------------
 #[cfg(test)]
 mod tests {
     use super::*;
@@ -1825,6 +2342,125 @@ mod tests {
         let q = parse_term("'$q'(findall(X, p(X), L), L)").unwrap();
         let T::Cmp(_, a) = q else { unreachable!() };
         assert_eq!(it.solve(&a[0], &a[1], &Limits::default()).short(), "sols[[1,2,3,9]]");
+    }
+
+    /// answers + token log ("k" or "k=v", cleanup tokens in brackets) + activation windows
+    fn run_log(prog: &str, q: &str, tmpl: &str) -> String {
+        let p = Program::from_text(prog).unwrap();
+        let qt = parse_term(&format!("'$q'(({q}),({tmpl}))")).unwrap();
+        let T::Cmp(_, a) = qt else { unreachable!() };
+        let mut it = Interp::new(&p);
+        let out = it.solve(&a[0], &a[1], &Limits::default()).short();
+        let log: Vec<String> = it
+            .log
+            .iter()
+            .map(|e| {
+                let s = match &e.v {
+                    Some(v) => format!("{}={}", e.k.text(), v.text()),
+                    None => e.k.text(),
+                };
+                if e.cleanup_of.is_some() {
+                    format!("[{s}]")
+                } else {
+                    s
+                }
+            })
+            .collect();
+        let acts: Vec<String> = it.scc.iter().map(|a| format!("{}:{}..{}", a.how, a.lower, a.upper.map(|u| u.to_string()).unwrap_or("end".into()))).collect();
+        format!("{out} | {} | {}", log.join(" "), acts.join(" "))
+    }
+
+    #[test]
+    fn refint_setup_call_cleanup() {
+        let p = "n(1). n(2). n(3).";
+        let bad = std::cell::RefCell::new(vec![]);
+        let t = |q: &str, tmpl: &str, expect: &str| {
+            let got = run_log(p, q, tmpl);
+            if got != expect {
+                bad.borrow_mut().push(format!("query: {q}\n   got:    {got}\n   expect: {expect}"));
+            }
+        };
+        // deterministic exit: cleanup right after the goal, bindings of the goal visible
+        t("setup_call_cleanup(vp_tok(1), X = a, vp_tok(2, X)), vp_tok(3)", "X", "sols[a] | 1 [2=a] 3 | det-exit:1..end");
+        // failure of the goal: cleanup, bindings undone
+        t("setup_call_cleanup(true, (X = a, fail), vp_tok(2, X))", "X", "sols[] | [2=V0] | fail:0..0");
+        // setup is once/1, its failure means no activation at all
+        t("setup_call_cleanup(n(X), vp_tok(1, X), vp_tok(2))", "X", "sols[1] | 1=1 [2] | det-exit:1..end");
+        t("setup_call_cleanup(fail, vp_tok(1), vp_tok(2))", "[]", "sols[] |  | ");
+        t("setup_call_cleanup(true, true, _)", "[]", "ex(error(instantiation_error,'$ctx')) |  | ");
+        // nondeterministic goal, exhausted: the cleanup runs at the last (deterministic) exit
+        t("setup_call_cleanup(true, n(X), vp_tok(9)), vp_tok(1, X)", "X", "sols[1; 2; 3] | 1=1 1=2 [9] 1=3 | det-exit:2..end");
+        // ... cut after the first solution
+        t("setup_call_cleanup(true, n(X), vp_tok(9)), vp_tok(1, X), !, vp_tok(2)", "X", "sols[1] | 1=1 [9] 2 | cut:0..1");
+        t("(setup_call_cleanup(true, n(X), vp_tok(9)) -> vp_tok(2) ; true)", "X", "sols[1] | [9] 2 | cut:0..0");
+        t("\\+ setup_call_cleanup(true, n(X), vp_tok(9))", "X", "sols[] | [9] | cut:0..0");
+        // ... abandoned by an exception after a nondeterministic exit
+        t("catch((setup_call_cleanup(true, n(X), vp_tok(9, X)), vp_tok(1), throw(b)), b, vp_tok(2))", "X", "sols[V0] | 1 [9=V0] 2 | exception:0..1");
+        // exception inside the goal: cleanup, then the catcher outside
+        t("catch(setup_call_cleanup(true, (vp_tok(1), throw(b)), vp_tok(9)), b, vp_tok(2))", "[]", "sols[[]] | 1 [9] 2 | exception:1..1");
+        // an inner catch between the goal and the throw takes the ball first: no cleanup yet
+        t("setup_call_cleanup(true, n(X), vp_tok(9)), catch(throw(b), b, vp_tok(2)), X >= 3", "X", "sols[3] | 2 2 [9] 2 | det-exit:2..end");
+        // ... the ball does not stop at a catch/3 that was already left when it was thrown
+        t("catch(setup_call_cleanup(true, n(X), vp_tok(9)), _, vp_tok(2)), throw(z)", "[]", "ex(z) | [9] | exception:0..0");
+        // failure and choice points of the cleanup are ignored, its exceptions too when an exception is pending
+        t("setup_call_cleanup(true, true, (vp_tok(9), fail)), vp_tok(1)", "[]", "sols[[]] | [9] 1 | det-exit:0..end");
+        t("setup_call_cleanup(true, true, (n(X), vp_tok(9, X))), vp_tok(1)", "X", "sols[1] | [9=1] 1 | det-exit:0..end");
+        t("catch(setup_call_cleanup(true, throw(a), (vp_tok(9), throw(c))), E, true)", "E", "sols[a] | [9] | exception:0..0");
+        // nested: innermost cleanup first, on cut and on exception
+        t("setup_call_cleanup(true, setup_call_cleanup(true, n(X), vp_tok(8)), vp_tok(9)), !", "X", "sols[1] | [8] [9] | cut:0..0 cut:0..0");
+        t("catch((setup_call_cleanup(true, setup_call_cleanup(true, n(X), vp_tok(8)), vp_tok(9)), throw(z)), _, true)", "[]", "sols[[]] | [8] [9] | exception:0..0 exception:0..0");
+        // call_cleanup/2; a cut inside the goal is local
+        t("call_cleanup((n(X), !), vp_tok(9)), vp_tok(1, X)", "X", "sols[1] | [9] 1=1 | det-exit:0..end");
+        // the window of a deterministic exit closes when the choice stack drops below the mark
+        t("(n(X), setup_call_cleanup(true, true, vp_tok(9)), vp_tok(1, X), fail ; vp_tok(2))", "[]", "sols[[]] | [9] 1=1 [9] 1=2 [9] 1=3 2 | det-exit:0..1 det-exit:1..2 det-exit:2..3");
+        // the log survives exceptions and backtracking
+        t("catch((vp_tok(1), (vp_tok(2), fail ; vp_tok(3)), throw(x)), _, vp_tok(4))", "[]", "sols[[]] | 1 2 3 4 | ");
+        assert!(bad.borrow().is_empty(), "{}", bad.borrow().join("\n"));
+    }
+
+    #[test]
+    fn refint_all_solutions() {
+        let p = "f(1, a, x). f(2, b, y). f(3, a, y). f(1, a, z). n(1). n(2). n(3). e(1). e(2). e(3) :- throw(oops).";
+        t(p, "bagof(X, f(X, Y, Z), L)", "Y-Z-L", "sols['-'('-'(a,x),[1]); '-'('-'(a,y),[3]); '-'('-'(a,z),[1]); '-'('-'(b,y),[2])]");
+        t(p, "bagof(X, Z^f(X, Y, Z), L)", "Y-L", "sols['-'(a,[1,3,1]); '-'(b,[2])]");
+        t(p, "bagof(X, Y^Z^f(X, Y, Z), L)", "L", "sols[[1,2,3,1]]");
+        t(p, "bagof(X, (Y, Z)^f(X, Y, Z), L)", "L", "sols[[1,2,3,1]]");
+        t(p, "setof(X, Z^f(X, Y, Z), L)", "Y-L", "sols['-'(a,[1,3]); '-'(b,[2])]");
+        t(p, "setof(Y-X, Z^f(X, Y, Z), L)", "L", "sols[['-'(a,1),'-'(a,3),'-'(b,2)]]");
+        t(p, "bagof(X, f(X, c, Z), L)", "L", "sols[]");
+        t(p, "bagof(X-Z, f(X, Y, Z), L)", "Y-L", "sols['-'(a,['-'(1,x),'-'(3,y),'-'(1,z)]); '-'(b,['-'(2,y)])]");
+        t(p, "bagof(X, f(X, Y, Z), foo)", "[]", "ex(error(type_error(list,foo),'$ctx'))");
+        t(p, "bagof(X, G, L)", "[]", "ex(error(instantiation_error,'$ctx'))");
+        t(p, "bagof(X, n(X), [A|B])", "A-B", "sols['-'(1,[2,3])]");
+        // the free variable is bound by the chosen group, template variables are not
+        t(p, "bagof(X, f(X, Y, Z), L), Y == b", "X-Z", "sols['-'(V0,y)]");
+        // variant witnesses form one group
+        t(p, "bagof(X, (X = 1, Y = g(Z) ; X = 2, Y = g(Z)), L)", "L", "sols[[1,2]]");
+        t(p, "findall(X, n(X), L, T)", "L-T", "sols['-'([1,2,3|V0],V0)]");
+        t(p, "findall(X, n(X), L, [a])", "L", "sols[[1,2,3,a]]");
+        t(p, "findall(X, n(X), [A|B], [z])", "A-B", "sols['-'(1,[2,3,z])]");
+        t(p, "findall(X, n(X), L, foo)", "L", "ex(error(type_error(list,foo),'$ctx'))");
+        t(p, "findall(X, fail, L, T)", "L-T", "sols['-'(V0,V0)]");
+        t(p, "countall(n(_), N)", "N", "sols[3]");
+        t(p, "countall(fail, N)", "N", "sols[0]");
+        t(p, "countall(n(_), 3)", "[]", "sols[[]]");
+        t(p, "countall(n(_), -1)", "[]", "ex(error(domain_error(not_less_than_zero,-1),'$ctx'))");
+        t(p, "countall(n(_), a)", "[]", "ex(error(type_error(integer,a),'$ctx'))");
+        t(p, "countall(e(_), N)", "N", "ex(oops)");
+        t(p, "call_nth(n(X), N)", "X-N", "sols['-'(1,1); '-'(2,2); '-'(3,3)]");
+        t(p, "call_nth(n(X), 2)", "X", "sols[2]");
+        t(p, "call_nth(n(X), 4)", "X", "sols[]");
+        t(p, "call_nth(n(X), 0)", "X", "sols[]");
+        t(p, "call_nth(n(X), -1)", "X", "ex(error(domain_error(not_less_than_zero,-1),'$ctx'))");
+        t(p, "call_nth(e(X), 2)", "X", "sols[2]");
+        t(p, "call_nth(e(X), N)", "X-N", "ex(oops)");
+        t(p, "call_nth(n(X), 2), n(Y)", "X-Y", "sols['-'(2,1); '-'(2,2); '-'(2,3)]");
+        t(p, "forall(n(X), X >= 1)", "[]", "sols[[]]");
+        t(p, "forall(n(X), X >= 2)", "[]", "sols[]");
+        // nesting
+        t(p, "findall(Y-L, bagof(X, Z^f(X, Y, Z), L), LL)", "LL", "sols[['-'(a,[1,3,1]),'-'(b,[2])]]");
+        t(p, "setof(N-Ys, setof(Y, X^Z^f(X, Y, Z), Ys), S), N = 1", "S", "sols[['-'(V0,[a,b])]]");
+        t(p, "catch(findall(X, e(X), L), B, true)", "L-B", "sols['-'(V0,oops)]");
     }
 
     #[test]
